@@ -114,7 +114,7 @@ def ref_sub(s, vars_):
 
 def gen_string(rng, defined):
     parts = []
-    for _ in range(rng.randint(0, 5)):
+    for _ in range(rng.randint(0, 5) if rng.random() > 0.04 else rng.randint(18, 45)):      # (now and then a long template with dozens of groups)
         r = rng.random()
         if r < 0.35 and defined:
             parts.append('{' + rng.choice(defined) + '}')
